@@ -36,3 +36,40 @@ i, j = doc.index(a) + len(a), doc.index(b)
 doc = doc[:i] + "\n\n" + gen + "\n" + doc[j:]
 open("DESIGN.md", "w").write(doc)
 print("DESIGN.md section 5 regenerated: %d obligations, %d properties" % (len(rows), len(props)))
+
+# ---- section 9: canary (mutation) log and seeded log -------------------------------------
+import glob, re
+can = json.load(open("checker/internal/rules/canaries.json"))
+res = {}
+for pid in sorted(props):
+    ev = json.load(open("evidence/%s.json" % pid))
+    for cr in (ev.get("coverage", {}).get("canaries") or ev.get("canaries") or []):
+        res[cr.get("id") or cr.get("ID")] = cr
+def short(t, n=70):
+    t = t.replace("\n", "⏎").replace("\t", "⇥").replace("|", "¦").replace("\\", "")
+    return t if len(t) <= n else t[: n - 1] + "…"
+rows9 = ["| id | property | file | substitution (old → new, first one) | expectation | reported by |", "|---|---|---|---|---|---|"]
+for c in can:
+    cr = res.get(c["id"], {})
+    rep = cr.get("reports") or cr.get("Reports") or []
+    names = sorted({r.split(" ")[0].split("/")[0] for r in rep})
+    st = cr.get("status") or cr.get("Status") or "not run in the last thorough tier"
+    rows9.append("| %s | %s | `%s` | `%s` → `%s` | %s | %s |" % (
+        c["id"], c["property"], c["file"], short(c["subs"][0][0], 48), short(c["subs"][0][1], 48),
+        c["expect"] + ((" — " + c["note"]) if c.get("note") and c["expect"] == "silent" else ""),
+        (", ".join(names) if names else "—") + " (" + st + ")"))
+def put(doc, a, b, text):
+    i, j = doc.index(a) + len(a), doc.index(b)
+    return doc[:i] + "\n" + text + "\n" + doc[j:]
+doc = open("DESIGN.md").read()
+doc = put(doc, "<!-- BEGIN MUTATION LOG -->", "<!-- END MUTATION LOG -->", "\n".join(rows9))
+srows = ["| seed | property | files | what it breaks (short) | first result | reported by (now) | what was done |", "|---|---|---|---|---|---|---|"]
+for d in sorted(glob.glob("seeded/*/meta.json")):
+    m = json.load(open(d))
+    sid = d.split("/")[1]
+    srows.append("| %s | %s | %s | %s | %s | %s | %s |" % (
+        sid, m["property"], ", ".join("`%s`" % f for f in (m.get("files_changed") or [])),
+        short(m.get("what_breaks") or "", 260), m.get("initial_result"), short(m.get("detected_by") or "", 200), short(m.get("what_was_done") or "", 400)))
+doc = put(doc, "<!-- BEGIN SEEDED LOG -->", "<!-- END SEEDED LOG -->", "\n".join(srows))
+open("DESIGN.md", "w").write(doc)
+print("DESIGN.md section 9 regenerated: %d canaries, %d seeds" % (len(can), len(srows) - 2))
